@@ -37,8 +37,6 @@ SemQ == {Probe(Pipe(gi, g, st)) : gi \in BOOLEAN, g \in GlobalSets, st \in {<<s>
         \cup {Probe(Single(Mod(b, i, FALSE, FALSE))) : b \in {A, B, N}, i \in BOOLEAN}
 SemT == {Probe(Pipe(gi, g, st)) : gi \in BOOLEAN, g \in {<<>>, <<L("c", 7), L("e", 2)>>},
                                   st \in [1..2 -> StepsT] \cup [1..3 -> {Mod(b, m[1], m[2], m[3]) : b \in {A0, B, C}, m \in ModsQ}]}
-SemCasesQ == SX!SetToSeq(SemQ)
-SemCasesT == SX!SetToSeq(SemT)
 
 \* ---- operators both systems share (relational only) -----------------------
 Cart(e) == S("cart", <<T("ellps", e)>>)
@@ -54,6 +52,23 @@ UnitC == S("unitconvert", <<T("xy_in", "deg"), T("xy_out", "rad")>>)
 CartArf == S("cart", <<T("a", "6378388"), T("rf", "297")>>)
 TmercArf == S("tmerc", <<T("rf", "299.1528128"), L("lon_0", 9), T("a", "6377397.155"), T("k", "0.9996")>>)
 Noop == S("noop", <<>>)
+
+\* ---- clashes on the rewritten keys: a, rf, k at pipeline level AND in a step (the step's own win) -----------
+GA == T("a", "6378137")      GRf == T("rf", "298.257222101")   GK == T("k", "0.9996")
+LA == T("a", "6377397.155")  LRf == T("rf", "299.1528128")     LK == T("k", "0.9999")
+ClashGlobals == {<<GA, GRf>>, <<GK>>, <<GRf, GK, GA>>}
+ClashLocals == {<<>>, <<LA>>, <<LRf>>, <<LA, LRf>>, <<LRf, LA>>, <<LK>>, <<LK, LA, LRf>>, <<LK, T("k", "0.5")>>}
+ClashBases == {S("utm", <<L("zone", 32)>>), S("tmerc", <<L("lon_0", 9)>>), S("t_gamut", <<L("rnat", 1), L("rreal", 1)>>)}
+WithLocals(b, l, front) == [b EXCEPT !.args = IF front THEN l \o @ ELSE @ \o l]
+ClashSet == {Shared(Pipe(gi, g, <<WithLocals(b, l, fr)>>)) : gi \in BOOLEAN, g \in ClashGlobals, l \in ClashLocals, b \in ClashBases, fr \in BOOLEAN}
+       \cup {Shared(Pipe(FALSE, g, <<WithLocals(S("tmerc", <<L("lon_0", 9)>>), l, FALSE), Inv(S("utm", <<L("zone", 32)>>))>>)) :
+                 g \in ClashGlobals, l \in ClashLocals}
+       \cup {Shared(Single(WithLocals(b, l, FALSE))) : b \in ClashBases, l \in ClashLocals \ {<<>>}}
+\* (k together with k_0 for the same step is not generated: "k is replaced by k_0 wherever it is encountered" would make
+\*  the later one win, PROJ itself prefers k_0 whatever the order; the documentation does not decide)
+
+SemCasesQ == SX!SetToSeq(SemQ \cup ClashSet)
+SemCasesT == SX!SetToSeq(SemT \cup ClashSet)
 
 \* layout cases: few definitions, many layouts
 LayCases == <<
@@ -72,6 +87,8 @@ LayCases == <<
     Shared(Pipe(FALSE, <<T("a", "6378388"), T("rf", "297")>>, <<S("cart", <<>>), Helm, Inv(S("cart", <<>>))>>)),
     Shared(Pipe(FALSE, <<T("k", "0.9996")>>, <<S("tmerc", <<L("lon_0", 9)>>), Inv(Utm(32))>>)),
     Shared(Pipe(FALSE, <<>>, <<UnitC, Lcc, Inv(Laea), Merc>>)),
+    Shared(Pipe(FALSE, <<GA, GRf>>, <<S("utm", <<L("zone", 32), LA, LRf>>), Inv(Utm(33))>>)),
+    Shared(Pipe(TRUE, <<GK, GA, GRf>>, <<S("tmerc", <<LK, L("lon_0", 9), LRf>>), S("t_gamut", <<L("rnat", 1), L("rreal", 1), LK>>)>>)),
     Refuse(Pipe(FALSE, <<>>, <<Cart("intl"), S("pipeline", <<>>), Helm>>), "nested"),
     Refuse(Pipe(FALSE, <<>>, <<S("pipeline", <<>>)>>), "nested"),
     Refuse(Pipe(FALSE, <<>>, <<S("noop", <<T("init", "another_pipeline")>>), Utm(32)>>), "init"),
